@@ -34,7 +34,7 @@ def dualModel (line : String) : String :=
   | none => "bad-op"
   | some ws =>
     if !wellFormed ws then "bad-op"
-    else if (compileWorkspace goChecks goNaming ws).errs.isEmpty then "ok" else "err"
+    else if (compileRequested goChecks goNaming ws).errs.isEmpty then "ok" else "err"
 
 /-- C01/C02 oracle: the implementation's accept/reject and descriptors against the declarative
     reference semantics (never against the Go-shaped model) -/
